@@ -117,8 +117,8 @@ def lit_value(kind, v):
     if kind == "uint64":
         return int(v)
     if kind == "float":
-        return {"inf": math.inf, "+inf": math.inf, "-inf": -math.inf, "nan": math.nan}.get(v) \
-            if v in ("inf", "+inf", "-inf", "nan") else float(v)
+        special = {"+Inf": math.inf, "-Inf": -math.inf, "NaN": math.nan}
+        return special[v] if v in special else float(v)
     if kind == "bool":
         return v == "true"
     if kind == "null":
